@@ -29,38 +29,10 @@ def kindName : Kind → String
   | .disc => "DisconnectFrame" | .rr => "ReceiveReadyFrame" | .i => "InformationFrame"
   | .ui => "UnnumberedInformationFrame"
 
-/-- receiving RR while a response is awaited is allowed by the procedure but C11 does not
-    require it; the code at hand does not accept it (its parser for that state only knows
-    information frames). -/
-def next' (d : Dir) (l : Link) (k : Kind) : Option Link :=
-  if d = .recv ∧ k = .rr then none else next d l k
-
-def step' (s : State) (d : Dir) (k : Kind) (ssn rsn : Nat) : State × Bool :=
-  match next' d s.link k with
-  | none => (s, false)
-  | some l' =>
-    if k = .i then
-      if numbersOk s d ssn rsn then
-        match d with
-        | .send => ({ link := l', nSent := s.nSent + 1, nRecv := s.nRecv }, true)
-        | .recv => ({ link := l', nSent := s.nSent, nRecv := s.nRecv + 1 }, true)
-      else (s, false)
-    else ({ s with link := l' }, true)
-
-/-- `step'` is `Spec.Nrm.step` except that an RR on receipt is refused: everything the
-    model accepts is allowed by the procedure. -/
-theorem step'_sound (s : State) (d : Dir) (k : Kind) (ssn rsn : Nat)
-    (h : (step' s d k ssn rsn).2 = true) : step' s d k ssn rsn = step s d k ssn rsn := by
-  unfold step' next' step at *
-  by_cases hc : d = .recv ∧ k = .rr
-  · simp [hc] at h
-  · simp only [hc, if_false] at h ⊢
-    rfl
-
-/-- and everything C11 requires (all of `next` except RR on receipt) is in `next'`. -/
-theorem step'_complete (d : Dir) (l : Link) (k : Kind) (h : ¬ (d = .recv ∧ k = .rr)) :
-    next' d l k = next d l k := by
-  simp [next', h]
+/-- the code accepts a receive-ready frame while a response is awaited (it acknowledges a
+    segment of a segmented request), so the model is compared with the full procedure. -/
+abbrev next' := next
+abbrev step' := step
 
 def op (m : St) (d : Dir) (k : Kind) (ssn rsn : Nat) : St × Res :=
   match d with
@@ -86,7 +58,7 @@ theorem parse_ok (l : Link) :
       match l with
       | .awaitingConnection => some "read_ua_frame"
       | .awaitingDisconnect => some "read_ua_frame"
-      | .awaitingResponse => some "read_information_frame"
+      | .awaitingResponse => some "read_response_frame"
       | _ => none := by
   cases l <;> decide
 
@@ -119,12 +91,12 @@ theorem C11_step_refines (m : St) (s : State) (h : Abs m s) (d : Dir) (k : Kind)
   · -- send
     simp only [op, send, send_states_ok, lookup_ok]
     cases link <;> cases k <;>
-      simp [step', next', next, Abs, linkName, kindName, iName, numbersOk, bump_mod] <;>
+      simp [step', step, next', next, Abs, linkName, kindName, iName, numbersOk, bump_mod] <;>
       (try (by_cases hs : ssn = nS % 8 <;> by_cases hr : rsn = nR % 8 <;> simp [hs, hr, linkName, bump_mod]))
   · -- receive
     simp only [op, recv, parse_ok, lookup_ok]
     cases link <;> cases k <;>
-      simp [step', next', next, Abs, linkName, kindName, iName, uaName, numbersOk, bump_mod] <;>
+      simp [step', step, next', next, Abs, linkName, kindName, iName, uaName, rrName, numbersOk, bump_mod] <;>
       (try (by_cases hs : ssn = nR % 8 <;> by_cases hr : rsn = nS % 8 <;> simp [hs, hr, linkName, bump_mod]))
 
 def toOp (o : Op) (m : St) : St × Res := op m o.dir o.kind o.ssn o.rsn
@@ -172,8 +144,8 @@ theorem C11_advance (s : State) (d : Dir) (k : Kind) (ssn rsn : Nat) :
       if (step' s d k ssn rsn).2 = true ∧ k = .i then
         (match d with | .send => (s.nSent + 1, s.nRecv) | .recv => (s.nSent, s.nRecv + 1))
       else (s.nSent, s.nRecv) := by
-  unfold step'
-  cases hn : next' d s.link k <;> simp
+  unfold step' step
+  cases hn : next d s.link k <;> simp
   by_cases hk : k = .i <;> simp [hk]
   by_cases hok : numbersOk s d ssn rsn = true <;> cases d <;> simp [hok]
 
